@@ -18,6 +18,9 @@ _Lagrangian that ExponentiatedGradient.fit hands its parameters to):
                     (clone / ctor:<Class> / alias:<expr> / unknown)
   fitHistoryReads   flow-sensitive: fitted attributes (not constructor parameters) that `fit` may READ (`self.<n>`,
                     `hasattr(self, "<n>")`, `getattr(self, "<n>", ..)`) before it has definitely (re)assigned them in this call
+  fitDefinitelyAssigned / predictReads   fitted attributes `fit` has reassigned on EVERY normally returning path / that the
+                    prediction entry points read (predictReads within fitDefinitelyAssigned + no history reads = every fit
+                    overwrites all fitted state a prediction can see)
   initDerivedReads  attributes read by fit / the prediction entry points that are neither parameters nor ever assigned
                     outside `__init__`;  initDerivedDeps: the constructor parameters each `__init__`-only attribute depends on
 plus
@@ -384,6 +387,22 @@ class ClassView:
                 self._recv_block(h.body, ctx, res)
 
     # ------------------------------------------------------------------ flow-sensitive history reads
+    def definitely_assigned(self, root):
+        """fitted attributes that `root` has (re)assigned on EVERY path that returns normally"""
+        if root not in self.methods:
+            return []
+        return sorted(a for a in _Flow(self).call(root, frozenset()) if a in self.assigned_outside_init)
+
+    def fitted_reads(self, roots):
+        """fitted attributes (assigned somewhere outside __init__) that the closure of `roots` reads"""
+        out = set()
+        for r in roots:
+            if r in self.methods:
+                fa = _Flow(self)
+                fa.call(r, frozenset())
+                out |= {n for n in fa.reads if n in self.assigned_outside_init}
+        return sorted(out)
+
     def history_reads(self, root):
         if root not in self.methods:
             return [], []
@@ -826,7 +845,9 @@ def analyse(repo):
                          predictMethods=pmeth, predictAssigned=sorted(set(pa) | set(pm)), predictSelfEscapes=pe,
                          fitReturns=cv.returns(FIT_ROOTS) if tag != "LAG" else [],
                          fitReceivers=cv.receivers(roots), fitHistoryReads=hist, initDerivedReads=initd,
-                         initDerivedDeps=cv.init_derived())
+                         initDerivedDeps=cv.init_derived(),
+                         fitDefinitelyAssigned=cv.definitely_assigned("fit") if tag != "LAG" else [],
+                         predictReads=cv.fitted_reads(pmeth))
     latch = _moment_latch(repo)
     cons = {}
     for tag in ("EG", "GS"):
@@ -870,6 +891,10 @@ def lifecycle_src(repo):
                  "fitted attributes that `fit` may read before it has definitely reassigned them")
     src += table("initDerivedReads", "List String", lambda d: slist(d["initDerivedReads"]),
                  "attributes read by `fit` or a prediction entry point that are neither parameters nor assigned outside `__init__`")
+    src += table("fitDefinitelyAssigned", "List String", lambda d: slist(d["fitDefinitelyAssigned"]),
+                 "fitted attributes that `fit` has (re)assigned on every path that returns normally")
+    src += table("predictReads", "List String", lambda d: slist(d["predictReads"]),
+                 "fitted attributes read by the closure of the prediction entry points")
     src += table("initDerivedDeps", "List (String × List String)",
                  lambda d: "[" + ", ".join(f"({lstr(a)}, {slist(ps)})" for a, ps in d["initDerivedDeps"]) + "]",
                  "attributes `__init__` sets that are not constructor parameters, with the parameters their value depends on")
